@@ -350,6 +350,10 @@ func FrameWatch(objs ...interface{}) {
 func HistoryStep() bool { return os.Getenv("VRT_PHASE") == "B" }
 
 func Observe(label string, v interface{}) {
+	if selfOut != nil {
+		fmt.Fprintf(selfOut, "%s=%v\n", label, v)
+		return
+	}
 	if p := os.Getenv("VRT_OBSERVE"); p != "" {
 		mu.Lock()
 		defer mu.Unlock()
